@@ -267,7 +267,7 @@ def run(ctx):
     ctx.cov["legs"]["MCKbx" + tier]["cases_replayed"] = len(gcases)
 
     # ---- legs G, T, P on the real packages
-    traces = run_harness(ctx, gcases + pinned, (300, 500) if q else (3000, 5000), True, 2400)
+    traces = run_harness(ctx, gcases + pinned, (300, 500) if q else (2000, 3000), True, 2400)
 
     # ---- leg V
     _, _, mism = judge(ctx, "V-G+T+P", traces, parallel=3 if q else None)
